@@ -1,1 +1,275 @@
 // verification harness (compiled into ntpd/src/daemon/sock_source.rs under cfg(all(test, pendulum_project_ntpd_rs_verif)))
+//
+// Harness for spec/SockSample.tla (C40): concretises every datagram class [size, magic, pulse, off, leap] into real
+// bytes and puts it through
+//   path "direct": deserialize_sample(Ok(size), first 40 bytes)                       -> verdict
+//   path "task":   the unix socket of a real SockSourceTask with a recording controller -> measurement or none
+// On the task path every probe is followed by a well-formed sentinel sample; when the sentinel's measurement has
+// arrived the probe has been processed (datagrams are handled in order).  A panic of the task is data.
+#![allow(clippy::all, dead_code)]
+
+use super::*;
+use ntp_proto::{NtpTimestamp, ObservableSourceTimedata, PollInterval};
+use serde_json::{Value, json};
+use std::collections::HashMap;
+use std::sync::{Arc, Mutex, RwLock};
+
+#[path = "/verif/harness/common/util.rs"]
+mod util;
+
+#[derive(Clone)]
+struct RecCtl(Arc<Mutex<Vec<(f64, String)>>>);
+
+impl SourceController for RecCtl {
+    fn handle_measurement(&mut self, m: Measurement) {
+        // offset as the sample stated it: receive time minus the sender time the task computed
+        self.0.lock().unwrap().push(((m.receiver_ts - m.sender_ts).to_seconds(), format!("{:?}", m.leap)));
+    }
+    fn set_usable(&mut self, _usable: bool) {}
+    fn desired_poll_interval(&self) -> PollInterval {
+        PollInterval::from_byte(4)
+    }
+    fn observe(&self) -> ObservableSourceTimedata {
+        Default::default()
+    }
+}
+
+#[derive(Clone, Default)]
+struct FixedClock;
+
+impl NtpClock for FixedClock {
+    type Error = std::io::Error;
+    fn now(&self) -> Result<NtpTimestamp, Self::Error> {
+        Ok(NtpTimestamp::from_seconds_nanos_since_ntp_era(1_000_000, 0))
+    }
+    fn set_frequency(&self, _freq: f64) -> Result<NtpTimestamp, Self::Error> {
+        self.now()
+    }
+    fn get_frequency(&self) -> Result<f64, Self::Error> {
+        Ok(0.0)
+    }
+    fn step_clock(&self, _offset: NtpDuration) -> Result<NtpTimestamp, Self::Error> {
+        self.now()
+    }
+    fn disable_ntp_algorithm(&self) -> Result<(), Self::Error> {
+        Ok(())
+    }
+    fn error_estimate_update(&self, _e: NtpDuration, _m: NtpDuration) -> Result<(), Self::Error> {
+        Ok(())
+    }
+    fn status_update(&self, _l: NtpLeapIndicator) -> Result<(), Self::Error> {
+        Ok(())
+    }
+}
+
+fn offset_of(class: &str) -> f64 {
+    match class {
+        "zero" => 0.0,
+        "negzero" => -0.0,
+        "small" => 0.123456789,
+        "negsmall" => -0.0015,
+        "subnormal" => 5e-324,
+        "huge" => 1e300,
+        "nan" => f64::NAN,
+        "pinf" => f64::INFINITY,
+        "ninf" => f64::NEG_INFINITY,
+        c => panic!("unknown offset class {c}"),
+    }
+}
+
+// The sample layout as documented by gpsd (struct sock_sample), deliberately NOT taken from the constants of the code
+// under test: 40 bytes, magic 0x534f434b ("SOCK").
+const SIZE: usize = 40;
+const MAGIC: i32 = 0x534f_434b;
+
+fn sample_bytes(offset: f64, pulse: i32, leap: i32, magic: i32) -> [u8; SIZE] {
+    let mut b = [0u8; SIZE];
+    b[0..8].copy_from_slice(&1_700_000_000i64.to_le_bytes());
+    b[8..16].copy_from_slice(&250_000i64.to_le_bytes());
+    b[16..24].copy_from_slice(&offset.to_le_bytes());
+    b[24..28].copy_from_slice(&pulse.to_le_bytes());
+    b[28..32].copy_from_slice(&leap.to_le_bytes());
+    b[36..40].copy_from_slice(&magic.to_le_bytes());
+    b
+}
+
+/// The datagram of a class: the 40-byte layout cut to `size`, or extended with filler bytes.
+fn datagram(c: &Value) -> Vec<u8> {
+    let magic = match c["magic"].as_str().unwrap() {
+        "ok" => MAGIC,
+        "off1" => MAGIC + 1,
+        _ => 0,
+    };
+    let full = sample_bytes(offset_of(c["off"].as_str().unwrap()), c["pulse"].as_i64().unwrap() as i32, c["leap"].as_i64().unwrap() as i32, magic);
+    let size = c["size"].as_u64().unwrap() as usize;
+    let mut v = full.to_vec();
+    v.resize(size, 0xA5);
+    v
+}
+
+fn direct(c: &Value) -> (Value, Option<String>) {
+    let dg = datagram(c);
+    let mut buf = [0u8; SOCK_SAMPLE_SIZE];
+    let n = dg.len().min(SOCK_SAMPLE_SIZE);
+    buf[..n].copy_from_slice(&dg[..n]);
+    match util::catch(|| deserialize_sample(Ok(dg.len()), buf)) {
+        Ok(Ok(s)) => {
+            let leap = match s.leap {
+                0 => "NoWarning",
+                1 => "Leap61",
+                2 => "Leap59",
+                _ => "Unknown",
+            };
+            (json!({"result": "Ok", "accepted": true, "leap": leap}), None)
+        }
+        Ok(Err(e)) => {
+            let r = match e {
+                SampleError::IOError(_) => "IOError",
+                SampleError::SliceError(_) => "SliceError",
+                SampleError::WrongSize(_) => "WrongSize",
+                SampleError::WrongMagic(_) => "WrongMagic",
+                SampleError::WrongPulse(_) => "WrongPulse",
+            };
+            (json!({"result": r, "accepted": false, "leap": "none"}), None)
+        }
+        Err(p) => (json!({}), Some(p)),
+    }
+}
+
+struct TaskSut {
+    log: Arc<Mutex<Vec<(f64, String)>>>,
+    handle: tokio::task::JoinHandle<()>,
+    client: std::os::unix::net::UnixDatagram,
+    path: PathBuf,
+    sentinel: u32,
+}
+
+impl TaskSut {
+    fn start(n: usize) -> TaskSut {
+        let path = std::env::temp_dir().join(format!("verif-sock-{}-{}", std::process::id(), n));
+        let log = Arc::new(Mutex::new(vec![]));
+        let (msg_for_system_sender, _rx) = tokio::sync::mpsc::channel(1);
+        let handle = SockSourceTask::spawn(
+            ClockId::new(),
+            path.clone(),
+            FixedClock,
+            SourceChannels { msg_for_system_sender, source_snapshots: Arc::new(RwLock::new(HashMap::new())) },
+            OneWaySource::new(RecCtl(log.clone())),
+        );
+        let client = std::os::unix::net::UnixDatagram::unbound().unwrap();
+        client.connect(&path).unwrap();
+        TaskSut { log, handle, client, path, sentinel: 0 }
+    }
+
+    /// Sends the probe and a sentinel; returns (measurements caused by the probe, panicked)
+    async fn probe(&mut self, dg: &[u8]) -> Result<(Vec<(f64, String)>, bool), String> {
+        let before = self.log.lock().unwrap().len();
+        self.sentinel += 1;
+        let mark = 4096.0 + self.sentinel as f64; // exactly representable, unlike any probe offset
+        self.client.send(dg).map_err(|e| format!("send failed: {e}"))?;
+        self.client.send(&sample_bytes(mark, 0, 0, MAGIC)).map_err(|e| format!("send failed: {e}"))?;
+        for round in 0..40_000u32 {
+            {
+                let log = self.log.lock().unwrap();
+                if let Some(pos) = log[before..].iter().position(|(o, _)| (*o - mark).abs() < 1e-3) {
+                    return Ok((log[before..before + pos].to_vec(), false));
+                }
+            }
+            if self.handle.is_finished() {
+                let log = self.log.lock().unwrap();
+                return Ok((log[before..].to_vec(), true));
+            }
+            // let the task run; fall back to short real sleeps only if it needs the I/O driver to be polled longer
+            if round < 2_000 || round % 16 != 0 {
+                tokio::task::yield_now().await;
+            } else {
+                tokio::time::sleep(std::time::Duration::from_millis(1)).await;
+            }
+        }
+        Err("sentinel sample never processed".to_string())
+    }
+}
+
+impl Drop for TaskSut {
+    fn drop(&mut self) {
+        self.handle.abort();
+        let _ = std::fs::remove_file(&self.path);
+    }
+}
+
+fn replay(job: &Value) {
+    let rows = util::read_ndjson(job["input"].as_str().unwrap());
+    let mut out = util::NdjsonOut::create(job["output"].as_str().unwrap());
+    let _ = util::catch(|| ()); // install the quiet panic hook before any task can panic
+    let rt = tokio::runtime::Builder::new_current_thread().enable_all().build().unwrap();
+    rt.block_on(async {
+        let mut nsut = 0;
+        let mut sut: Option<TaskSut> = None;
+        // consecutive probes whose well-formed sentinel was not turned into a measurement; after two of them (the
+        // second on a fresh task) the task evidently rejects well-formed samples: stop waiting, fail the rest quickly
+        let mut deaf = 0;
+        for r in rows {
+            let a = &r["act"];
+            let c = &a["c"];
+            let (obs, panic) = if a["path"] == json!("direct") {
+                direct(c)
+            } else {
+                if sut.is_none() {
+                    nsut += 1;
+                    sut = Some(TaskSut::start(nsut));
+                }
+                let dg = datagram(c);
+                let probed = if deaf >= 2 {
+                    Err("a well-formed sample is not turned into a measurement".to_string())
+                } else {
+                    sut.as_mut().unwrap().probe(&dg).await
+                };
+                match probed {
+                    Ok((ms, died)) => {
+                        deaf = 0;
+                        if died {
+                            sut = None; // restart the task for the next probe
+                        }
+                        let o = match ms.first() {
+                            Some((off, leap)) => json!({"accepted": true, "leap": leap, "offset": if off.is_finite() { json!(off) } else { json!("nonfinite") },
+                                                        "measurements": ms.len()}),
+                            None => json!({"accepted": false, "leap": "none", "measurements": 0}),
+                        };
+                        (o, if died { Some("SockSourceTask panicked".to_string()) } else { None })
+                    }
+                    Err(e) => {
+                        sut = None;
+                        deaf += 1;
+                        (json!({}), Some(e))
+                    }
+                }
+            };
+            let exp = &r["out"];
+            let mut d: Vec<String> = vec![];
+            if panic.is_some() {
+                d.push("panic".to_string());
+            } else {
+                let keys: &[&str] = if a["path"] == json!("direct") { &["result", "accepted", "leap"] } else { &["accepted", "leap"] };
+                for k in keys {
+                    if exp[*k] != obs[*k] {
+                        d.push(format!("out.{k}"));
+                    }
+                }
+                if obs["measurements"].as_u64().unwrap_or(0) > 1 {
+                    d.push("out.accepted".to_string());
+                }
+            }
+            out.put(&json!({"id": r["id"], "fields": d, "observed": obs, "panic": panic}));
+        }
+    });
+    out.finish();
+}
+
+#[test]
+fn verif_sock() {
+    let job = util::job();
+    match job["mode"].as_str().unwrap() {
+        "replay" => replay(&job),
+        m => panic!("unknown mode {m}"),
+    }
+}
